@@ -116,6 +116,12 @@ func mintPool() {
 	sp.Key = pki.Key("EC-384", 0)
 	add("root", pki.Mint(sp, nil))
 
+	// root0 re-issued after a key roll-over: same subject, same serial number, another key - a different
+	// certificate that a store must keep next to the old one
+	sp = ca("root0", 2)
+	sp.Serial = r0.Cert.SerialNumber
+	add("root", pki.Mint(sp, nil))
+
 	i0 := add("inter", pki.Mint(ca("inter0", 1), r0))
 	i1 := add("inter", pki.Mint(ca("inter1", 0), i0))
 	i2 := add("inter", pki.Mint(ca("inter2", -1), r1))
